@@ -1,6 +1,6 @@
 """C12 - HTML, JSON, Markdown and text outputs all render and carry the same data.
 
-Exhaustive: every set of <= K transactions over a 14-transaction alphabet (merchant names that differ only in
+Exhaustive: every set of <= K transactions over a 16-transaction alphabet (merchant names that differ only in
 quotes, spaces or underscores; descriptions containing </script>, quotes, backslashes, the template
 placeholders, braces, non-ASCII; refunds, income with negative amount, transfers in/out, investment, a merchant
 netting to zero; extra fields) x {no views, views} is analysed by the real analyze_transactions and rendered by
@@ -27,7 +27,7 @@ from mc.ref import money
 
 PROPERTY = "C12"
 LEVEL = "exploration"
-RULE = ("cases = every subset of 1..K transactions (K=3 quick, 4 thorough) of a 14-transaction alphabet x {without views, with two views}; each case "
+RULE = ("cases = every subset of 1..K transactions (K=3 quick, 4 thorough) of a 16-transaction alphabet x {without views, with two views}; each case "
         "renders 11 outputs (2 HTML modes, JSON x3, Markdown x3 verbosities, text summary, views summary, plus the separate data file). "
         "non-trivial = subsets with >=2 merchants whose derived ids collide, or with a description containing markup / placeholder text, or mixing "
         ">=2 money buckets; subsets are distinct by construction")
@@ -52,6 +52,9 @@ ALPHA = [
     ("Ünï", "x", 0.25, [], D(2025, 2, 8), FOOD, {"k": "</script>", "n": 5}),
     ("Zero", "zero net", 100.0, [], D(2025, 1, 20), BILLS, None),
     ("Zero", "zero net back", -100.0, [], D(2025, 2, 20), BILLS, None),
+    # one merchant whose transactions carry different special tags
+    ("Mix", "mixed transfer", 40.0, ["transfer"], D(2025, 1, 21), BILLS, None),
+    ("Mix", "mixed plain", 60.0, [], D(2025, 2, 21), BILLS, None),
 ]
 VIEWS = "[All]\nfilter: true\n\n[Food Only]\ndescription: food & \"drink\" </script>\nfilter: category == \"Food\"\n"
 
